@@ -25,6 +25,8 @@ FUNCS = [('modeling.py', 'contracts.py.lin_spec', '_lin._addterm'),
           '_function.__truediv__'),
          ('modeling.py', 'contracts.py.function_spec',
           '_function.__itruediv__'),
+         ('modeling.py', 'contracts.py.function_index_spec',
+          '_function.__len__'),
          ('modeling.py', 'contracts.py.function_index_spec', 'sum'),
          ('modeling.py', 'contracts.py.function_index_spec',
           '_function.__getitem__'),
